@@ -151,6 +151,10 @@ func denyExec(fn *ssa.Function) bool {
 		switch fn.Name() {
 		case "IPv4", "isZeros", "allFF", "bytesEqual":
 			return false
+		case "Timeout", "Temporary", "Unwrap":
+			if r := fn.Signature.Recv(); r != nil && strings.Contains(r.Type().String(), "OpError") {
+				return false
+			}
 		}
 		return true
 	}
@@ -240,6 +244,13 @@ func (e *Engine) builtin(st *State, f *Frame, res ssa.Value, in ssa.Instruction,
 			return
 		}
 		o.ch.closed = true
+		if len(o.ch.buf) == 0 {
+			for _, t := range st.threads {
+				if t.waitCh == c.obj && !t.done {
+					e.wakeReceiver(st, c.obj, e.zeroVal(t.elemT), false)
+				}
+			}
+		}
 	case "recover":
 		set(IfaceV{})
 	case "min", "max":
@@ -501,6 +512,9 @@ func (e *Engine) chanSend(st *State, f *Frame, in ssa.Instruction, c ChanV, v Va
 		e.panicCheck(st, f, in, e.tb.ff, "send on closed channel")
 		return
 	}
+	if len(o.ch.buf) == 0 && e.wakeReceiver(st, c.obj, v, true) {
+		return
+	}
 	if len(o.ch.buf) < o.ch.cap {
 		o.ch.buf = append(o.ch.buf, v)
 		return
@@ -532,7 +546,108 @@ func (e *Engine) chanRecv(st *State, f *Frame, x *ssa.UnOp, c ChanV, commaOk boo
 		set(e.zeroVal(et), false)
 		return
 	}
+	if e.suspendRecv(st, c.obj, x, commaOk, et) {
+		return
+	}
 	e.blocked(st, f, x, "receive from empty channel with no sender")
+}
+
+// ---------- goroutines as cooperative threads ----------
+// A recorded `go` statement can be started by the harness (vRunSpawn): it runs until it blocks on a
+// channel receive or finishes, then control returns to the thread that started it. A send on a
+// channel with a thread blocked in receive is a rendez-vous: the value is handed over and the
+// receiver becomes runnable; runnable threads run when the current one finishes/blocks or at vYield.
+
+func (e *Engine) suspendRecv(st *State, ch int, x ssa.Value, commaOk bool, et types.Type) bool {
+	if len(st.resume) == 0 && !e.hasRunnable(st) {
+		return false // nobody else could ever send: a genuine block of the main goroutine
+	}
+	t := &Thread{frames: st.frames, waitCh: ch, recv: x, commaOk: commaOk, elemT: et}
+	st.threads = append(st.threads, t)
+	st.frames = nil
+	return true
+}
+
+func (e *Engine) hasRunnable(st *State) bool {
+	for _, t := range st.threads {
+		if t.waitCh == 0 && !t.done {
+			return true
+		}
+	}
+	return false
+}
+
+// switchThread installs the next thread to run; false if there is none.
+func (e *Engine) switchThread(st *State) bool {
+	for i, t := range st.threads {
+		if t.waitCh == 0 && !t.done {
+			st.threads = append(append([]*Thread(nil), st.threads[:i]...), st.threads[i+1:]...)
+			st.frames = t.frames
+			return true
+		}
+	}
+	if n := len(st.resume); n > 0 {
+		t := st.resume[n-1]
+		st.resume = st.resume[:n-1]
+		st.frames = t.frames
+		return true
+	}
+	return false
+}
+
+// wakeReceiver hands v to a thread blocked receiving on ch; false if there is none.
+func (e *Engine) wakeReceiver(st *State, ch int, v Value, ok bool) bool {
+	for _, t := range st.threads {
+		if t.waitCh == ch && !t.done {
+			fr := t.frames[len(t.frames)-1]
+			if t.commaOk {
+				fr.locals[t.recv] = TupleV{v, BoolV{e.tb.Bool(ok)}}
+			} else {
+				fr.locals[t.recv] = v
+			}
+			t.waitCh = 0
+			return true
+		}
+	}
+	return false
+}
+
+// startThread runs a recorded spawn as a new thread; the current thread resumes when it yields.
+func (e *Engine) startThread(st *State, f *Frame, in ssa.Instruction, sp spawn) {
+	parent := &Thread{frames: st.frames}
+	st.resume = append(st.resume, parent)
+	st.frames = nil
+	// invoke needs a frame context only for diagnostics; build the call on an empty stack
+	e.invokeRoot(st, f, in, sp)
+}
+
+func (e *Engine) invokeRoot(st *State, f *Frame, in ssa.Instruction, sp spawn) {
+	cc := sp.cc
+	var callee *ssa.Function
+	var bind []Value
+	args := sp.args
+	switch {
+	case cc.IsInvoke():
+		iv, ok := sp.fn.(IfaceV)
+		if !ok || iv.typ == nil {
+			panic(hardErr("go on nil interface method"))
+		}
+		callee = e.prog.LookupMethod(iv.typ, cc.Method.Pkg(), cc.Method.Name())
+		args = append([]Value{iv.val}, args...)
+	case cc.StaticCallee() != nil && !isClosureCall(cc):
+		callee = cc.StaticCallee()
+	default:
+		fv, ok := sp.fn.(FuncV)
+		if !ok || fv.fn == nil {
+			panic(hardErr("go of nil function"))
+		}
+		callee, bind = fv.fn, fv.bind
+	}
+	if callee.Blocks == nil {
+		panic(hardErr("go of external function " + callee.String()))
+	}
+	e.sawFunc(callee.String())
+	e.pushFrame(st, callee, args, bind, nil)
 }
 
 func (e *Engine) selectOp(st *State, f *Frame, x *ssa.Select) {
